@@ -410,6 +410,9 @@ func checkConv(p *Prog, r *Report, pkg, prop string) {
 		ruleComparatorsSymmetric(p, r, map[string]bool{pkg: true}, map[string]int{"panos": 9, "nsx": 1}[pkg])
 		ruleSides(p, r, "R-SIDE", prop, map[string]bool{pkg: true}, map[string]int{"panos": 17, "nsx": 8}[pkg])
 	}
+	if pkg == "panos" || pkg == "nsx" {
+		ruleLookupsAudited(p, r, "R-LK", prop, map[string]int{"panos": 10, "nsx": 6}[pkg])
+	}
 	ruleExitsAudited(p, r, "R-X", prop, map[string]bool{pkg: true}, map[string]int{"panos": 1, "nsx": 3, "linux": 2}[pkg])
 	ruleBufferReuse(p, r, "R-REUSE", map[string]bool{pkg: true})
 	ruleMemo(p, r, "R-MEMO", prop, map[string]bool{pkg: true}, map[string]int{"panos": 4, "nsx": 3}[pkg])
